@@ -14,7 +14,8 @@ structure Inv (st : St) : Prop where
   i2 : Inv2 st
   i4 : Inv4 st
 
-theorem inv_init (co : Co → Bool) : Inv (init co) := ⟨inv1_init co, inv2_init co, inv4_init co⟩
+theorem inv_initCfg (ff fd : Bool) (co : Co → Bool) : Inv (initCfg ff fd co) := ⟨inv1_init ff fd co, inv2_init ff fd co, inv4_init ff fd co⟩
+theorem inv_init (co : Co → Bool) : Inv (init co) := inv_initCfg true true co
 
 theorem inv_step (st st' : St) (a : Actor) (e : Env) (h : Inv st) (hs : step st a e = some st') : Inv st' := by
   obtain ⟨h1, h2, h4⟩ := h
